@@ -59,8 +59,10 @@ ProcessPos(s, ev, ln) ==
   LET g0 == s.g
       specFen == Fen(g0.cur)
       fenOk == specFen = ev.fen
-      \* re-synchronise on a FEN discrepancy so that the rest of the trace is checked
-      cur == IF fenOk THEN g0.cur ELSE ParseFen(ev.fen)
+      \* re-synchronise on a FEN discrepancy so that the rest of the trace is checked; when only the clocks differ the
+      \* specification keeps its own clocks (the game history is what it is), so later fifty-move answers are still judged
+      engPos == IF fenOk THEN g0.cur ELSE ParseFen(ev.fen)
+      cur == IF fenOk THEN g0.cur ELSE IF Id(engPos) = Id(g0.cur) THEN g0.cur ELSE engPos
       g == IF fenOk THEN g0 ELSE [g0 EXCEPT !.cur = cur, !.past = [g0.past EXCEPT ![Len(g0.past)] = Id(cur)]]
       vFen == IF fenOk THEN <<>> ELSE <<V(ln, FenProp(s.lastOp), "fen", ev.fen, [expected |-> specFen, op |-> s.lastOp])>>
       inGame == g.nulls = 0
@@ -76,16 +78,18 @@ ProcessPos(s, ev, ln) ==
       \* ---- predicates (C07), only for positions of a game (not inside a null move)
       chk == InCheck(cur)
       doPred == inGame /\ Has(ev, "chk")
+      \* history predicates are recomputed from the specification's OWN game state (g0, before any re-synchronisation):
+      \* if the engine's clock or position went wrong, its answers about this game history are wrong too
       exp == [chk |-> chk,
-              rep |-> Repeated(g), rep3 |-> Threefold(g), r50 |-> Rule50(g),
-              mat |-> ~Insufficient(cur), draw |-> IsDraw(g)]
+              rep |-> Repeated(g0), rep3 |-> Threefold(g0), r50 |-> Rule50(g0),
+              mat |-> ~Insufficient(cur), draw |-> Rule50(g0) \/ Threefold(g0) \/ Insufficient(cur)]
       predBad == IF ~doPred THEN {} ELSE {f \in {"chk", "rep", "rep3", "r50", "mat", "draw"} : ev[f] # exp[f]}
       mateBad == IF doPred /\ hasMoves /\ Has(ev, "mate")
                  THEN {f \in {"mate", "stale"} : ev[f] # (IF f = "mate" THEN chk /\ L = {} ELSE ~chk /\ L = {})}
                  ELSE {}
       vPred == IF predBad \cup mateBad = {} THEN <<>> ELSE
                <<V(ln, "C07", "predicate", ev.fen,
-                   [wrong |-> predBad \cup mateBad, hmc |-> cur.hmc, occurrences |-> Occurrences(g), plies |-> Len(g.past)])>>
+                   [wrong |-> predBad \cup mateBad, hmc |-> g0.cur.hmc, occurrences |-> Occurrences(g0), plies |-> Len(g0.past)])>>
       \* ---- keys (C04)
       hasKey == Has(ev, "key")
       id == Id(cur)
